@@ -12,7 +12,9 @@ EXPLANATION = (
     "everything after the receive in Daemon.handleRequest is under a catch-all that replies under exactly the documented "
     "conditions (finite truth table over the exception-class lattice); unserialisable exceptions are replaced; every "
     "handshake call site is contained; the peer-controlled annotation walk terminates (unsigned lengths, positive advance, ordering "
-    "test as loop condition). Not decided: correctness of the replies to well-behaved clients, accounting values, "
+    "test as loop condition)."
+    'Also decided: definite assignment of every local in the library (two named exceptions); housekeeping deletes only after a fresh look-up; accept() errors end the multiplex loop only for a destroyed server socket. '
+    "Not decided: correctness of the replies to well-behaved clients, accounting values, "
     "liveness against a peer that stalls without disconnecting."
 )
 
@@ -294,6 +296,23 @@ def run(ctx, R, tier):
         R.check(bool(trys), "C05-R5", "%s|_handshake" % g.qualname, "handshake call is under a catch-all try", g.loc(c),
                 "an exception of Daemon._handshake (send failure, annotation/serialisation error) leaves %s" % g.qualname)
 
+    # housekeeping runs inside the multiplex request loop (unguarded) and in the housekeeper thread: it must not be able to raise
+    from .common import housekeeping_relookup
+    housekeeping_relookup(ctx, R, "C05-R1b")
+    # the one exemption of R1 that depends on a condition: the accept error that ends the loop is raised only for a destroyed server socket
+    hc = ctx.fn("Pyro5.svr_multiplex.SocketServer_Multiplex._handleConnection")
+    hccfg = ctx.cfg(hc)
+    hraises = [n for n in hccfg.nodes if n.kind == "stmt" and isinstance(n.ast, ast.Raise) and n.ast.exc is not None]
+
+    def destroyed(atom, pol):
+        if pol is True and isinstance(atom, ast.Compare) and len(atom.ops) == 1 and isinstance(atom.ops[0], ast.In) and unparse(atom.comparators[0]).endswith(("ERRNO_BADF", "ERRNO_ENOTSOCK")):
+            return True
+        return False
+    from .c03 import edge_implies_any
+    okh = bool(hraises) and all(hccfg.guarded(n, lambda e: edge_implies_any(e, [destroyed])) for n in hraises)
+    R.check(okh, "C05-R1b", "_handleConnection|loop-ending-error-only-for-destroyed-server-socket", "accept() errors end the multiplex loop only for EBADF/ENOTSOCK (the server socket itself is gone)",
+            hc.loc(hraises[0].ast) if hraises else hc.loc(),
+            "an accept() failure that a client can provoke (TLS garbage, descriptor exhaustion) raises out of the request loop: the daemon stops serving everybody")
     # ---------------------------------------------------------------- R8
     from ..engine.dataflow import possibly_undefined
     # named exceptions, confirmed by reading; the variable is identified by how it is defined / where it is read, not by its name
